@@ -285,6 +285,7 @@ def check_properties(prop, allowed_axioms, extra_files=()):
     if together is None:
         together = {n: _check_property_file(n, allowed_axioms) for n in names}
     res = together[prop]
+    res["main_ok"] = bool(res["ok"])      # Properties/<prop>.v itself (its cone holds the model the correspondence evaluates)
     res["files"] = {prop: {"obligations": len(res["theorems"]), "discharged": res["discharged"]}}
     for name in extra_files:
         r = together[name]
